@@ -100,6 +100,29 @@ func sxToTerm(s *sx, so *Sort) (*Term, error) {
 			}
 			return a, nil
 		}
+		// solver model syntax: ((as const (Array K V)) v) and (store a i v)
+		if len(s.list) == 2 && s.list[0].list != nil && len(s.list[0].list) == 3 && s.list[0].list[0].atom == "as" && s.list[0].list[1].atom == "const" {
+			t, err := sxToTerm(s.list[1], so.Elem)
+			if err != nil {
+				return nil, err
+			}
+			return ConstArr(so, t), nil
+		}
+		if len(s.list) == 4 && s.list[0].atom == "store" && so.Key != nil {
+			a, err := sxToTerm(s.list[1], so)
+			if err != nil {
+				return nil, err
+			}
+			i, err := sxToTerm(s.list[2], so.Key)
+			if err != nil {
+				return nil, err
+			}
+			e, err := sxToTerm(s.list[3], so.Elem)
+			if err != nil {
+				return nil, err
+			}
+			return Store(a, i, e), nil
+		}
 	case KBool:
 		if s.atom == "true" {
 			return TTrue, nil
@@ -517,6 +540,7 @@ func tryReplayOnce1(P *Program, v *Verifier, ob *Obligation, extra string) (*Rep
 func tryReplayBody(P *Program, v *Verifier, ob *Obligation, extra string) *ReplayResult {
 	fn := ob.Fn
 	rr := &ReplayResult{Inputs: map[string]string{}}
+	nilled := false
 	if fn == nil || fn.Pkg == nil || ob.Result == nil || ob.Result.SMTFile == "" {
 		rr.Note = "no function or SMT file"
 		return rr
@@ -605,7 +629,12 @@ func tryReplayBody(P *Program, v *Verifier, ob *Obligation, extra string) *Repla
 				rr.Note = "model value of " + p.Name() + ": " + err.Error()
 				return rr
 			}
-			t = nilIfaces(t)
+			if t2 := nilIfaces(t); t2 != t {
+				// a run whose inputs were changed this way no longer satisfies the preconditions the model
+				// satisfied, so a panic of the real function on them confirms nothing
+				nilled = true
+				t = t2
+			}
 			vals[p] = t
 			rr.Inputs[p.Name()] = t.String()
 		}
@@ -645,7 +674,10 @@ func tryReplayBody(P *Program, v *Verifier, ob *Obligation, extra string) *Repla
 		if err != nil {
 			return nil, err
 		}
-		t = nilIfaces(t)
+		if t2 := nilIfaces(t); t2 != t {
+			nilled = true
+			t = t2
+		}
 		heapCache[k] = t
 		rr.Inputs["*"+ref.String()+":"+cell.Name] = t.String()
 		return t, nil
@@ -743,6 +775,10 @@ func tryReplayBody(P *Program, v *Verifier, ob *Obligation, extra string) *Repla
 	out, _ := cmd.CombinedOutput()
 	rr.Output = truncate(string(out), 3000)
 	if strings.Contains(string(out), "GOVC-PANIC") || strings.Contains(string(out), "panic:") || strings.Contains(string(out), "fatal error") {
+		if nilled {
+			rr.Note = "the model needs a non-nil interface value, which replay cannot build; the panic on nil is not the model's run"
+			return rr
+		}
 		if ob.Kind == "safe" || ob.Kind == "post" || ob.Kind == "pre" {
 			rr.Confirmed = true
 			rr.Note = "the real function panics on the model's input"
